@@ -25,6 +25,7 @@ ENGINES = [
     {"name": "Summaries*.tla", "path": "/verif/spec/SummariesMap.tla", "serves_properties": ["C11", "C12", "C16"], "kind_free_text": "SummariesMap (MAP / topology report scan), SummariesTable (result table rows), SummariesCons / SummariesCons4 (consensus)"},
     {"name": "Loader.tla", "path": "/verif/spec/Loader.tla", "serves_properties": ["C17"], "kind_free_text": "input tables as cell->rows functions: documented vs implementation-shaped filtering"},
     {"name": "Emission.tla", "path": "/verif/spec/Emission.tla", "serves_properties": ["C05"], "kind_free_text": "PyClone genotype enumeration and exact rational VAFs"},
+    {"name": "LossProb.tla", "path": "/verif/spec/LossProb.tla", "serves_properties": ["C05", "C17", "C18"], "kind_free_text": "cluster outlier/loss prior: option resolution of run(), cluster-table column, truncal cluster, lost-cluster test as the exact law of distinct chromosomes, prior terms"},
     {"name": "Chains.tla", "path": "/verif/spec/Chains.tla", "serves_properties": ["C18"], "kind_free_text": "multi-chain scheduler: spawned streams, interleavings, completion orders"},
     {"name": "TraceFile.tla", "path": "/verif/spec/TraceFile.tla", "serves_properties": ["C20"], "kind_free_text": "streamed single write with crash after any prefix; reader all-or-error"},
     {"name": "Forests.tla", "path": "/verif/spec/Forests.tla", "serves_properties": ["C01", "C03", "C04", "C06", "C07", "C08", "C09", "C11", "C12", "C16"], "kind_free_text": "canonical forest universe"},
@@ -193,7 +194,7 @@ CHECKS = {
                 "exactly the draws of its own spawned stream, results are keyed by chain number, no draw is shared; one shared stream and "
                 "per-worker-slot streams are refuted. On the real code `phyclone run --seed S --num-chains 2` (outlier modelling and subtree "
                 "moves on) is executed under PYTHONHASHSEED 0/4242/1/2, all cores vs one core (taskset), and per-chain start delays that produce "
-                "both completion orders (asserted from the run's output), plus two single-chain runs; every trace entry (tree, alpha, log_p_one) "
+                "both completion orders (asserted from the run's output), plus two single-chain runs and two runs of a clustered input with --assign-loss-prob (priors drawn with the main generator before the chains are spawned); every trace entry (tree, alpha, log_p_one) "
                 "of every chain must be bit-identical across runs. Thorough: 3 proposals x 3 chains.",
         "note": "Level exploration: OS schedules are sampled (exhaustive only in the model). Delays are injected by a sitecustomize on PYTHONPATH guarded by PHYCLONE_VERIF=1; nothing in /repo is modified.",
     },
